@@ -29,11 +29,14 @@ def _serialize_ds9(regions, precision=8):
         if isinstance(region, (CompoundPixelRegion, CompoundSkyRegion)):
             warnings.warn('Cannot serialize a compound region, skipping',
                           AstropyUserWarning)
+            continue
 
         if isinstance(region, RegularPolygonPixelRegion):
             region = region.to_polygon()
 
-        region_data.append(_serialize_region_ds9(region, precision=precision))
+        region_data_ = _serialize_region_ds9(region, precision=precision)
+        if region_data_ is not None:  # None if the region was skipped
+            region_data.append(region_data_)
 
     # ds9 file header
     output = '# Region file format: DS9 astropy/regions\n'
@@ -45,12 +48,14 @@ def _serialize_ds9(regions, precision=8):
         region_meta.pop('tag', None)  # "tag" cannot be in global metadata
         all_meta.append(region_meta)
 
-    common_meta = set.intersection(*[set(meta_dict.items())
-                                     for meta_dict in all_meta])
-    # keep the (deterministic) key order of the first region rather than
-    # the arbitrary iteration order of a set
-    global_meta = {key: val for key, val in all_meta[0].items()
-                   if (key, val) in common_meta}
+    global_meta = {}
+    if all_meta:
+        common_meta = set.intersection(*[set(meta_dict.items())
+                                         for meta_dict in all_meta])
+        # keep the (deterministic) key order of the first region rather
+        # than the arbitrary iteration order of a set
+        global_meta = {key: val for key, val in all_meta[0].items()
+                       if (key, val) in common_meta}
     if global_meta:
         output += f'global {_make_meta_str(global_meta)}\n'
 
@@ -139,6 +144,7 @@ def _get_frame_name(region, mapping):
     if frame not in mapping:
         warnings.warn(f'Cannot serialize region with frame={frame}, skipping',
                       AstropyUserWarning)
+        return None
 
     return mapping[frame]
 
@@ -216,6 +222,8 @@ def _get_region_params(region, shape_template, precision=8):
 def _serialize_region_ds9(region, precision=8):
     frame_mapping = {v: k for k, v in ds9_frame_map.items()}
     frame = _get_frame_name(region, mapping=frame_mapping)
+    if frame is None:  # the frame cannot be expressed in DS9
+        return None
 
     shape = _get_region_shape(region)
     if shape not in ds9_shape_templates:
